@@ -7,7 +7,10 @@ import (
 	"errors"
 	"fmt"
 	"io"
+	"net"
+	"os"
 	"reflect"
+	"syscall"
 
 	astits "github.com/asticode/go-astits"
 	"verif/mc"
@@ -21,7 +24,11 @@ func init() {
 			return err
 		}
 		partial, _ := d["partial"].(bool)
-		vs := writerFault(ops, int(d["fail_at"].(float64)), d["permanent"].(bool), partial)
+		var errs []error
+		if k, _ := d["error_kind"].(string); k != "" {
+			errs = append(errs, c18ErrOf(k))
+		}
+		vs := writerFault(ops, int(d["fail_at"].(float64)), d["permanent"].(bool), partial, errs...)
 		for _, v := range vs {
 			fmt.Printf("  [%s] %s\n", v.Sig, v.Msg)
 		}
@@ -34,9 +41,38 @@ func init() {
 
 var errInjected = errors.New("verif: injected I/O failure")
 
+func c18ErrOf(kind string) error {
+	for _, k := range c18ErrKinds {
+		if k.Name == kind {
+			return k.Err
+		}
+	}
+	return errInjected
+}
+
+// c18ErrKinds: the failure need not be an anonymous error value: readers and writers fail with the standard
+// library's sentinel errors (a closed pipe or file, a reset connection, a deadline, a cancelled context). None of
+// them is end-of-file.
+var c18ErrKinds = []struct {
+	Name string
+	Err  error
+}{
+	{"closed-pipe", io.ErrClosedPipe},
+	{"closed-file", &os.PathError{Op: "read", Path: "/dev/dvb/adapter0/dvr0", Err: os.ErrClosed}},
+	{"connection-reset", &net.OpError{Op: "read", Net: "tcp", Err: syscall.ECONNRESET}},
+	{"deadline", os.ErrDeadlineExceeded},
+	{"cancelled", context.Canceled},
+	{"no-progress", io.ErrNoProgress},
+	{"short-write", io.ErrShortWrite},
+}
+
 // writerFault runs a history with the writer failing at Write index failAt and checks every
 // call during which an injected error was returned.
-func writerFault(ops []MOp, failAt int, perm, partial bool) (vs []Viol) {
+func writerFault(ops []MOp, failAt int, perm, partial bool, errs ...error) (vs []Viol) {
+	errInjected := errInjected
+	if len(errs) > 0 {
+		errInjected = errs[0]
+	}
 	h := NewMuxH(40)
 	h.W.FailAt, h.W.Perm, h.W.Partial, h.W.FailErr = failAt, perm, partial, errInjected
 	for i, op := range ops {
@@ -116,7 +152,7 @@ func (r *offsetRecorder) Write(p []byte) (int, error) {
 func checkC18(c *mc.Ctx) {
 	c.Ev.Level = "fault_enumeration"
 	c.Ev.Rule = "writer half: for each scenario every index of the writer's Write calls is made to fail, once in one-shot and once in permanent mode, and the run is executed to completion on the real Muxer; reader half: for each stream, reader kind, packet-size mode, API and read pattern every byte offset is made the failure point; distinct_nontrivial = distinct (scenario, failing Write site / failure offset class) pairs"
-	c.Ev.Assumptions = append(c.Ev.Assumptions, "the injected error is a plain errors.New value; io.EOF-like errors are out of scope (end of stream)")
+	c.Ev.Assumptions = append(c.Ev.Assumptions, "the injected error is a plain errors.New value at every offset / Write index, and seven standard-library error values (closed pipe, closed file, connection reset, deadline, cancelled context, no progress, short write) at a subset; io.EOF and io.ErrUnexpectedEOF are end of stream, not failures")
 	scens := map[string][]MOp{
 		"tables-and-stuffing-cases": append(append([]MOp{}, setupAB...), opTables, opDataAs1, opDataAs2, opDataAfit, opDataA1),
 		"multi-packet-and-af":       append(append([]MOp{}, setupAB...), opDataA3, opDataARAI, opDataAprv, opDataB1),
@@ -158,12 +194,23 @@ func checkC18(c *mc.Ctx) {
 		c.Ev.AddScenario(mc.Scenario{Name: "writer:" + name, SpaceSize: n, Executed: done, Exhaustive: done == n,
 			Bound: fmt.Sprintf("every one of the %d Write calls x {one-shot, permanent} x {nothing accepted, first half of the bytes accepted}", W)})
 		c.Ev.Class("writer-fault-runs", done)
+		// the same with the standard library's error values (one-shot, nothing accepted)
+		nk := int64(W) * int64(len(c18ErrKinds))
+		donek := mc.ParFor(nk, c.OverBudget, func(i int64) {
+			at, ek := int(i/int64(len(c18ErrKinds))), c18ErrKinds[i%int64(len(c18ErrKinds))]
+			for _, v := range writerFault(ops, at, false, false, ek.Err) {
+				c.Rep.Report(v.Sig, map[string]any{"kind": "writer-fault", "scenario": name, "ops": ops, "fail_at": at, "permanent": false, "partial": false, "error_kind": ek.Name, "message": v.Msg})
+			}
+		})
+		c.Ev.AddScenario(mc.Scenario{Name: "writer-error-values:" + name, SpaceSize: nk, Executed: donek, Exhaustive: donek == nk,
+			Bound: fmt.Sprintf("every one of the %d Write calls x %d standard-library error values, one-shot", W, len(c18ErrKinds))})
+		c.Ev.Class("writer-fault-error-values", donek)
 		if len(c.Ev.Samples) < 2 {
 			c.Ev.Sample(map[string]any{"scenario": name, "ops": fmt.Sprint(ops), "write_calls": W})
 		}
 	}
 	readerFaults(c)
-	c.Ev.Require("writer-fault-runs", "writer-partial-write", "reader-fault-runs", "reader-fault-inside-autodetect")
+	c.Ev.Require("writer-fault-runs", "writer-partial-write", "reader-fault-runs", "reader-fault-inside-autodetect", "reader-fault-error-values", "writer-fault-error-values")
 }
 
 // ---------------------------------------------------------------------------------------
@@ -179,12 +226,20 @@ type faultReader struct {
 	failed bool
 	// withData: the Read that reaches failAt returns its bytes and the error in the same call
 	withData bool
+	err      error // the failure (errInjected when nil)
+}
+
+func (r *faultReader) failure() error {
+	if r.err != nil {
+		return r.err
+	}
+	return errInjected
 }
 
 func (r *faultReader) Read(p []byte) (int, error) {
 	if r.off >= r.failAt {
 		r.failed = true
-		return 0, errInjected
+		return 0, r.failure()
 	}
 	n := len(p)
 	if r.chunk > 0 && n > r.chunk {
@@ -207,7 +262,7 @@ func (r *faultReader) Read(p []byte) (int, error) {
 		if n < len(p) {
 			r.failed = true
 		}
-		return n, errInjected
+		return n, r.failure()
 	}
 	return n, nil
 }
@@ -361,6 +416,53 @@ func readerFaults(c *mc.Ctx) {
 		c.Ev.AddScenario(mc.Scenario{Name: "reader:" + st.Name, SpaceSize: n, Executed: done, Exhaustive: done == n,
 			Bound: fmt.Sprintf("every byte offset 0..%d x %d usable configurations (reader kind x auto/explicit x API x read pattern)", len(b)-1, len(jobs))})
 		c.Ev.Class("reader-fault-runs", done)
+		// the same with the standard library's sentinel errors as the failure (whole-chunk reads, offsets around every
+		// packet boundary and every 47th byte)
+		var offs []int
+		for at := 0; at < len(b); at++ {
+			if m := at % 188; at%47 == 0 || m == 0 || m == 1 || m == 187 {
+				offs = append(offs, at)
+			}
+		}
+		var kjobs []job
+		for _, j := range jobs {
+			if j.cfg.Chunk == 0 && !j.cfg.WithData {
+				kjobs = append(kjobs, j)
+			}
+		}
+		nk := int64(len(c18ErrKinds)) * int64(len(kjobs)) * int64(len(offs))
+		donek := mc.ParFor(nk, c.OverBudget, func(i int64) {
+			ek := c18ErrKinds[i%int64(len(c18ErrKinds))]
+			i /= int64(len(c18ErrKinds))
+			j := kjobs[i%int64(len(kjobs))]
+			at := offs[i/int64(len(kjobs))]
+			r, fr := mkFaultReader(j.cfg, b, at)
+			fr.err = ek.Err
+			got, err, reached, pan := observeUntilFault(j.cfg, r, fr, len(b))
+			det := map[string]any{"kind": "reader-fault", "stream": st.Name, "cfg": j.cfg, "fail_at": at, "error_kind": ek.Name, "bytes": mc.Hex(b)}
+			site := fmt.Sprintf("%s/auto=%v/%s", j.cfg.Kind, j.cfg.Auto, j.cfg.API)
+			rep := func(sig, f string, a ...any) {
+				det["message"] = fmt.Sprintf(f, a...)
+				c.Rep.Report(sig, det)
+			}
+			switch {
+			case pan != nil:
+				rep("reader-fault-panic:"+site, "panic: %v", pan)
+			case !reached:
+			case err == nil:
+				rep("reader-error-swallowed:"+site, "reader failed with %v at offset %d during a call that returned no error", ek.Err, at)
+			case errors.Is(err, astits.ErrNoMorePackets):
+				rep("reader-error-reported-as-eof:"+site, "reader failed with %v at offset %d but the call returned ErrNoMorePackets", ek.Err, at)
+			case !errors.Is(err, ek.Err):
+				rep("reader-error-not-wrapped:"+site, "reader failed with %v at offset %d; the call returned %v which does not wrap the cause", ek.Err, at, err)
+			}
+			if !isPrefix(got, j.base) {
+				rep("reader-fault-output-not-prefix:"+site, "delivered results before the failure are not a prefix of the fault-free output")
+			}
+		})
+		c.Ev.AddScenario(mc.Scenario{Name: "reader-error-values:" + st.Name, SpaceSize: nk, Executed: donek, Exhaustive: donek == nk,
+			Bound: fmt.Sprintf("%d standard-library error values x %d configurations x %d offsets (packet boundaries +-1, every 47th byte)", len(c18ErrKinds), len(kjobs), len(offs))})
+		c.Ev.Class("reader-fault-error-values", donek)
 	}
 }
 
